@@ -129,6 +129,12 @@ class Verdict:
         for kid, (k, n, f) in sorted(known.items()):
             print('KNOWN-FINDING: property=%s %s [%s; %d instance(s) this run, e.g. %s]' % (
                 self.prop, k['what'], kid, n, _short(f)))
+        if os.environ.get('VERIF_DEBUG'):
+            import collections
+            c = collections.Counter((f['clause'], json.dumps({k: v for k, v in f['sig'].items() if k not in ('family', 'mode', 'frag_index', 'got', 'expected')},
+                                                             sort_keys=True, default=str)) for f in unknown)
+            for (cl, sg), n in sorted(c.items()):
+                print('DEBUG unknown %6d %s %s' % (n, cl, sg))
         rc = 0
         if unknown:
             rc = 1
